@@ -5,39 +5,74 @@ import os
 from props import tlc_replay, VERIF
 
 KNOWN = ["--known", os.path.join(VERIF, "known_findings.json")]
+# few GC threads and a large young generation: the generators allocate many short-lived values and the
+# default (one GC thread per core) thrashes when the machine is shared (measured: 200 -> 500-800 vectors/s)
+JAVA = "-Xss64m -XX:ParallelGCThreads=2 -Xmn1g"
 
 
-def v1(name, replay, nf, nt, pays, types='{"Q"}', workers=8, timeout=1500, extra=None):
+def v1(name, replay, nf, nt, pays, types='{"Q"}', workers=6, timeout=1500, extra=None):
     """family V1 (MC_C02.tla): all spread graphs on nf fragments x payloads x spreads of the operation"""
     return tlc_replay("MC_C02_" + name, "MC_C02", replay,
                       dict(constants={"NF": nf, "NT": nt, "PayIds": pays, "FragTypes": types, "Fam": '"V1"'},
                            invariants=["TheoremsHold"]),
-                      workers=workers, timeout=timeout, replay_args=KNOWN + (extra or []))
+                      workers=workers, timeout=timeout, java_opts=JAVA, replay_args=KNOWN + (extra or []))
+
+
+def g(name, replay, fam, decor="none", leafs="NoSel", comps="NoSel", inlines="NoSel", dirs="DirsNone", frags="NoFrags",
+      spread="NoSpread", maxsel=2, maxnodes=3, maxdepth=2, workers=6, timeout=1500, extra=None):
+    """families V2-V5 (MC_C02G.tla): documents grown by GenDoc.tla from alphabets with wrong choices, decorated"""
+    consts = {"Sch": "<- S1", "Frags": "<- " + frags, "OpKind": '"query"', "MaxSel": maxsel, "MaxNodes": maxnodes,
+              "MaxDepth": maxdepth, "DirSet": "<- " + dirs, "Leafs": "<- " + leafs, "Comps": "<- " + comps,
+              "Inlines": "<- " + inlines, "SpreadOK": "<- " + spread, "Fam": '"%s"' % fam, "Decor": '"%s"' % decor}
+    return tlc_replay("MC_C02_" + name, "MC_C02G", replay, dict(constants=consts, invariants=["TheoremsHold"]),
+                      workers=workers, timeout=timeout, java_opts=JAVA, replay_args=KNOWN + (extra or []))
 
 
 def stages_for(replay, tier, extra=None):
     if tier == "quick":
         return [
-            v1("V1_1f", replay, 1, 2, "{1,2,3,4,5,6,7,8}", extra=extra),
-            v1("V1_2f", replay, 2, 2, "{1,2,3,5,6}", extra=extra),
-            v1("V1_2f_QM", replay, 2, 2, "{1,7}", types='{"Q","M"}', extra=extra),
+            g("V4", replay, "V4", leafs="V4_Leafs", comps="V4_Comps", inlines="V4_Inlines", maxsel=2, maxnodes=3, maxdepth=3,
+              extra=extra),
+            g("V3", replay, "V3", leafs="V3_Leafs", comps="V3_Comps", maxsel=2, maxnodes=2, maxdepth=2, extra=extra),
+            g("V3d", replay, "V3", leafs="V3_Leafs", dirs="V3_Dirs", maxsel=1, maxnodes=1, maxdepth=1, extra=extra),
+            g("V2", replay, "V2", decor="vdefs", leafs="V2_Leafs", dirs="V2_Dirs", frags="FragsF", spread="SpreadAny",
+              maxsel=2, maxnodes=2, maxdepth=1, extra=extra),
+            g("V5", replay, "V5", decor="ops", leafs="V5_Leafs", inlines="V5_Inlines", dirs="V5_Dirs", frags="FragsF",
+              spread="SpreadAny", maxsel=2, maxnodes=2, maxdepth=2, extra=extra),
+            v1("V1_1f", replay, 1, 2, "{1,2,3,4,5,6,7,8}", extra=extra),                    # 1 225 documents
+            v1("V1_2f", replay, 2, 2, "{1,2,5,6}", extra=extra),                            # 6 859
+            v1("V1_2f_QM", replay, 2, 2, "{1,7}", types='{"Q","M"}', extra=extra),          # 5 324
         ]
     return [
-        v1("V1_1f", replay, 1, 2, "{1,2,3,4,5,6,7,8}", extra=extra),
-        v1("V1_2f", replay, 2, 3, "{1,2,3,4,5,6}", extra=extra),
-        v1("V1_2f_QM", replay, 2, 2, "{1,2,5,7}", types='{"Q","M"}', extra=extra),
-        v1("V1_3f", replay, 3, 3, "{1,2}", extra=extra),
+        g("V4", replay, "V4", leafs="V4_Leafs", comps="V4_Comps", inlines="V4_Inlines", maxsel=2, maxnodes=4, maxdepth=3,
+          extra=extra),
+        g("V3", replay, "V3", leafs="V3_Leafs", comps="V3_Comps", maxsel=2, maxnodes=3, maxdepth=2, extra=extra),
+        g("V3d", replay, "V3", leafs="V3_Leafs", dirs="V3_Dirs", maxsel=1, maxnodes=1, maxdepth=1, extra=extra),
+        g("V2", replay, "V2", decor="vdefs", leafs="V2_Leafs", dirs="V2_Dirs", frags="FragsF", spread="SpreadAny",
+          maxsel=2, maxnodes=3, maxdepth=1, extra=extra),
+        g("V5", replay, "V5", decor="ops", leafs="V5_Leafs", inlines="V5_Inlines", dirs="V5_Dirs", frags="FragsF",
+          spread="SpreadAny", maxsel=2, maxnodes=3, maxdepth=2, extra=extra),
+        v1("V1_1f", replay, 1, 2, "{1,2,3,4,5,6,7,8}", extra=extra),                        # 1 225
+        v1("V1_2f", replay, 2, 3, "{1,2,3,4,5,6}", extra=extra),                            # 166 375
+        v1("V1_2f_QM", replay, 2, 2, "{1,2,5,7}", types='{"Q","M"}', extra=extra),          # 28 899
+        v1("V1_3f", replay, 3, 3, "{1,2}", extra=extra),                                    # 279 841
     ]
 
 
+def only(sts):
+    """C02_ONLY=V1_2f,V4 restricts a run to the named configurations (development aid)"""
+    want = [w for w in os.environ.get("C02_ONLY", "").split(",") if w]
+    return [s for s in sts if not want or s["cfg"].replace("MC_C02_", "") in want]
+
+
 def stages(tier, seed):
-    return stages_for("C02", tier)
+    return only(stages_for("C02", tier))
 
 
 def c18b_stages(tier, seed):
     """C18 clause (b): the same vectors, every validation error must be located at the start of an
     offending node; layouts with LF, CR and CRLF line ends and comment lines."""
-    return stages_for("C18b", tier, extra=["--layouts", "lf,cr,crlf,crlfcom"])
+    return only(stages_for("C18b", tier, extra=["--layouts", "lf,cr,crlf,crlfcom"]))
 
 
 ASSUME = [
@@ -62,6 +97,14 @@ PROPS = {
              "by the harness)",
         assumptions=ASSUME),
 }
+
+# stand-alone run of clause (b) of C18 (`bin/check C18b`); the C18 check includes c18b_stages
+PROPS["C18b"] = dict(
+    stages=c18b_stages, level="model_checking",
+    rule="the vectors of C02; every error of every violated rule must carry a location that is the (line, column) of the "
+         "start of an offending node, in layouts with LF, CR, CRLF line ends and comment lines; non-trivial = document "
+         "violating >= 1 rule",
+    assumptions=ASSUME + ["line/column are counted by the harness' printer while it writes the text (ASCII only)"])
 
 MANIFEST_TEXT = {
     "C02": dict(
